@@ -501,7 +501,7 @@ pub const BODY_STATUS: i32 = 7;
 
 /// run a whole simulated process: `parser.run()` then the program body
 pub fn launch(
-    parser: OptionParser<Val>,
+    opts: &Opts,
     argv: &[Tok],
     out_fault: &StreamFault,
     err_fault: &StreamFault,
@@ -517,7 +517,10 @@ pub fn launch(
         s.err.fault = err_fault.clone();
         s.bells = true;
     });
-    let r = catch_unwind(AssertUnwindSafe(move || parser.run()));
+    let rest: &[Tok] = if argv.is_empty() { &[] } else { &argv[1..] };
+    let entry = crate::shape::entry_for(opts, rest);
+    let opts2 = opts.clone();
+    let r = catch_unwind(AssertUnwindSafe(move || crate::shape::run_via(&opts2, entry)));
     world::with(|s| s.bells = false);
     let (status, body, panic) = match r {
         Ok(v) => (BODY_STATUS, Some(v), None),
